@@ -214,62 +214,203 @@ theorem flatMap_nil_fun (l : List α) : (l.flatMap fun _ => ([] : List γ)) = []
   | nil => rfl
   | cons a l ih => simp [ih]
 
+/-- one left key group against all right key groups: the blocks whose key pair satisfies ON are,
+    together, the per-row textbook matches of the group's rows -/
+theorem nested_group_perm (pair : α → β → γ) (on : α → β → Bool) (onKey : κ → κ → Bool)
+    (kl : α → κ) (kr : β → κ) (hon : ∀ a b, on a b = onKey (kl a) (kr b)) (l : List α) (r : List β)
+    (gl : κ × List α) (hgl : gl ∈ catalogue kl l) :
+    ((catalogue kr r).flatMap fun gr =>
+        if onKey gl.1 gr.1 then gl.2.flatMap fun a => gr.2.map (pair a) else []).Perm
+      (gl.2.flatMap fun a => (r.filter (on a)).map (pair a)) := by
+  obtain ⟨k, ms⟩ := gl
+  -- (1) the block condition is the per-pair condition
+  have h1 : ((catalogue kr r).flatMap fun gr =>
+        if onKey k gr.1 then ms.flatMap fun a => gr.2.map (pair a) else []) =
+      ((catalogue kr r).flatMap fun gr => ms.flatMap fun a => (gr.2.filter (on a)).map (pair a)) := by
+    apply flatMap_congr_mem
+    intro gr hgr
+    obtain ⟨k', ns⟩ := gr
+    have hall : ∀ a ∈ ms, ns.filter (on a) = if onKey k k' then ns else [] := by
+      intro a ha
+      have hka := catalog_member_key kl l k ms hgl a ha
+      by_cases hc : onKey k k' = true
+      · simp only [hc, if_true]
+        apply List.filter_eq_self.mpr
+        intro b hb
+        rw [hon, hka, catalog_member_key kr r k' ns hgr b hb]; exact hc
+      · simp only [hc, if_false]
+        apply List.filter_eq_nil_iff.mpr
+        intro b hb
+        rw [hon, hka, catalog_member_key kr r k' ns hgr b hb]; exact hc
+    by_cases hc : onKey k k' = true
+    · simp only [hc, if_true]
+      apply flatMap_congr_mem
+      intro a ha; rw [hall a ha]; simp [hc]
+    · have hc' : onKey k k' = false := by simpa using hc
+      simp only [hc', Bool.false_eq_true, if_false]
+      symm
+      have : (ms.flatMap fun a => (ns.filter (on a)).map (pair a)) = ms.flatMap fun _ => ([] : List γ) := by
+        apply flatMap_congr_mem
+        intro a ha; rw [hall a ha]; simp [hc']
+      rw [this, flatMap_nil_fun]
+  show ((catalogue kr r).flatMap fun gr =>
+        if onKey k gr.1 then ms.flatMap fun a => gr.2.map (pair a) else []).Perm
+      (ms.flatMap fun a => (r.filter (on a)).map (pair a))
+  rw [h1]
+  -- (2) swap the two iterations
+  refine (flatMap_comm_perm (fun gr a => (gr.2.filter (on a)).map (pair a)) (catalogue kr r) ms).trans ?_
+  -- (3) per left row: all right groups together are the right table
+  apply flatMap_perm_pointwise
+  intro a _
+  have : ((catalogue kr r).flatMap fun gr => (gr.2.filter (on a)).map (pair a)) =
+      (((catalogue kr r).flatMap (·.2)).filter (on a)).map (pair a) := by
+    rw [List.filter_flatMap, List.map_flatMap]
+  rw [this]
+  exact ((catalog_flatten_perm kr r).filter (on a)).map (pair a)
+
 /-- **the nested loop over key groups is a permutation of the textbook join**, for every ON
     condition that is determined by the extracted key columns (`on a b = onKey (key a) (key b)`) -/
 theorem nested_inner_perm_textbook (pair : α → β → γ) (on : α → β → Bool) (onKey : κ → κ → Bool)
     (kl : α → κ) (kr : β → κ) (hon : ∀ a b, on a b = onKey (kl a) (kr b)) (l : List α) (r : List β) :
     (nestedInner pair onKey kl kr l r).Perm (textbookOn pair on l r) := by
   unfold nestedInner textbookOn
-  -- per left group
-  have hgl : ∀ gl ∈ catalogue kl l,
-      ((catalogue kr r).flatMap fun gr =>
-        if onKey gl.1 gr.1 then gl.2.flatMap fun a => gr.2.map (pair a) else []).Perm
-      (gl.2.flatMap fun a => (r.filter (on a)).map (pair a)) := by
+  -- all left groups together are the left table
+  refine (flatMap_perm_pointwise (catalogue kl l)
+    (fun gl hgl => nested_group_perm pair on onKey kl kr hon l r gl hgl)).trans ?_
+  rw [← List.flatMap_assoc]
+  exact List.Perm.flatMap_right _ (catalog_flatten_perm kl l)
+
+/-! ### nested loop, LEFT: a left key group no right key group matches is padded once per row -/
+
+theorem flatMap_single_map (f : α → γ) (l : List α) : (l.flatMap fun a => [f a]) = l.map f := by
+  induction l with
+  | nil => rfl
+  | cons a l ih => simp [ih]
+
+/-- every key group of a catalogue has a member -/
+theorem catalog_group_nonempty (key : α → κ) (rows : List α) (g : κ × List α)
+    (hg : g ∈ catalogue key rows) : g.2 ≠ [] := by
+  obtain ⟨k, ms⟩ := g
+  rw [catalogue_eq_groups] at hg
+  have hg' := hg
+  simp only [groupsSpec, List.mem_map, Prod.mk.injEq] at hg'
+  obtain ⟨k', hk', rfl, rfl⟩ := hg'
+  have hk'' := (specDedup_sublist keq _).subset hk'
+  simp only [List.mem_map] at hk''
+  obtain ⟨x, hx, hxk⟩ := hk''
+  intro hnil
+  have : x ∈ rows.filter (fun y => keq k' (key y)) := by
+    simp [List.mem_filter, hx, keq, hxk]
+  simp only at hnil
+  rw [hnil] at this
+  cases this
+
+/-- every row sits in the key group of its key -/
+theorem catalog_cover (key : α → κ) (rows : List α) (b : α) (hb : b ∈ rows) :
+    ∃ g ∈ catalogue key rows, g.1 = key b ∧ b ∈ g.2 := by
+  rw [catalogue_eq_groups]
+  obtain ⟨k, hk, hkb⟩ := specDedup_covers keq keq_equiv (rows.map key) (key b) (List.mem_map.mpr ⟨b, hb, rfl⟩)
+  refine ⟨(k, rows.filter (fun z => keq k (key z))), ?_, ?_, ?_⟩
+  · simp only [groupsSpec, List.mem_map]; exact ⟨k, hk, rfl⟩
+  · simpa [keq] using hkb
+  · simp [List.mem_filter, hb, hkb]
+
+/-- group members are source rows -/
+theorem catalog_member_mem (key : α → κ) (rows : List α) (g : κ × List α)
+    (hg : g ∈ catalogue key rows) (a : α) (ha : a ∈ g.2) : a ∈ rows := by
+  obtain ⟨k, ms⟩ := g
+  rw [catalogue_eq_groups] at hg
+  exact ((mem_group_iff keq key rows k ms hg a).mp ha).1
+
+/-- `JoinFunc` / `JoinMatchFunc`, LEFT: as the inner loop, and a left key group for which no right
+    key group satisfied ON contributes each of its rows once, padded -/
+def nestedLeft (pair : α → β → γ) (pad : α → γ) (onKey : κ → κ → Bool) (kl : α → κ) (kr : β → κ)
+    (l : List α) (r : List β) : List γ :=
+  (catalogue kl l).flatMap fun gl =>
+    let rows := (catalogue kr r).flatMap fun gr =>
+      if onKey gl.1 gr.1 then gl.2.flatMap fun a => gr.2.map (pair a) else []
+    if (catalogue kr r).any (fun gr => onKey gl.1 gr.1) then rows else rows ++ gl.2.map pad
+
+/-- textbook LEFT OUTER join on an arbitrary condition -/
+def textbookLeftOn (pair : α → β → γ) (pad : α → γ) (on : α → β → Bool) (l : List α) (r : List β) : List γ :=
+  l.flatMap fun a =>
+    let ms := r.filter (on a)
+    if ms.isEmpty then [pad a] else ms.map (pair a)
+
+/-- **the nested LEFT loop over key groups is a permutation of the textbook LEFT OUTER join** -/
+theorem nested_left_perm_textbook (pair : α → β → γ) (pad : α → γ) (on : α → β → Bool) (onKey : κ → κ → Bool)
+    (kl : α → κ) (kr : β → κ) (hon : ∀ a b, on a b = onKey (kl a) (kr b)) (l : List α) (r : List β) :
+    (nestedLeft pair pad onKey kl kr l r).Perm (textbookLeftOn pair pad on l r) := by
+  unfold nestedLeft textbookLeftOn
+  have hgroup : ∀ gl ∈ catalogue kl l,
+      (let rows := (catalogue kr r).flatMap fun gr =>
+          if onKey gl.1 gr.1 then gl.2.flatMap fun a => gr.2.map (pair a) else []
+        if (catalogue kr r).any (fun gr => onKey gl.1 gr.1) then rows else rows ++ gl.2.map pad).Perm
+      (gl.2.flatMap fun a =>
+        let ms := r.filter (on a)
+        if ms.isEmpty then [pad a] else ms.map (pair a)) := by
     intro gl hgl
+    have hinner := nested_group_perm pair on onKey kl kr hon l r gl hgl
     obtain ⟨k, ms⟩ := gl
-    -- (1) the block condition is the per-pair condition
-    have h1 : ((catalogue kr r).flatMap fun gr =>
-          if onKey k gr.1 then ms.flatMap fun a => gr.2.map (pair a) else []) =
-        ((catalogue kr r).flatMap fun gr => ms.flatMap fun a => (gr.2.filter (on a)).map (pair a)) := by
-      apply flatMap_congr_mem
-      intro gr hgr
-      obtain ⟨k', ns⟩ := gr
-      have hall : ∀ a ∈ ms, ns.filter (on a) = if onKey k k' then ns else [] := by
+    by_cases hany : (catalogue kr r).any (fun gr => onKey k gr.1) = true
+    · -- some right key group matches: every row of the left group has a match
+      simp only [hany, if_true]
+      obtain ⟨gr, hgr, hk⟩ := List.any_eq_true.mp hany
+      have hne := catalog_group_nonempty kr r gr hgr
+      obtain ⟨b, hb⟩ := List.exists_mem_of_ne_nil _ hne
+      have hbr := catalog_member_mem kr r gr hgr b hb
+      have hkb := catalog_member_key kr r gr.1 gr.2 hgr b hb
+      have hrhs : (ms.flatMap fun a =>
+            let xs := r.filter (on a)
+            if xs.isEmpty then [pad a] else xs.map (pair a)) =
+          (ms.flatMap fun a => (r.filter (on a)).map (pair a)) := by
+        apply flatMap_congr_mem
         intro a ha
         have hka := catalog_member_key kl l k ms hgl a ha
-        by_cases hc : onKey k k' = true
-        · simp only [hc, if_true]
-          apply List.filter_eq_self.mpr
-          intro b hb
-          rw [hon, hka, catalog_member_key kr r k' ns hgr b hb]; exact hc
-        · simp only [hc, if_false]
+        have : b ∈ r.filter (on a) := by
+          simp only [List.mem_filter]
+          refine ⟨hbr, ?_⟩
+          rw [hon, hka, hkb]; exact hk
+        have hne' : (r.filter (on a)).isEmpty = false := by
+          cases hf : r.filter (on a) with
+          | nil => rw [hf] at this; cases this
+          | cons _ _ => rfl
+        simp [hne']
+      rw [hrhs]
+      exact hinner
+    · -- no right key group matches: no row of the left group has a match
+      have hany' : (catalogue kr r).any (fun gr => onKey k gr.1) = false := by simpa using hany
+      simp only [hany', Bool.false_eq_true, if_false]
+      have hall : ∀ gr ∈ catalogue kr r, onKey k gr.1 = false := by
+        intro gr hgr
+        have := List.any_eq_false.mp hany' gr hgr
+        simpa using this
+      have hrows : ((catalogue kr r).flatMap fun gr =>
+            if onKey k gr.1 then ms.flatMap fun a => gr.2.map (pair a) else []) = [] := by
+        have : ((catalogue kr r).flatMap fun gr =>
+            if onKey k gr.1 then ms.flatMap fun a => gr.2.map (pair a) else []) =
+            ((catalogue kr r).flatMap fun _ => ([] : List γ)) := by
+          apply flatMap_congr_mem
+          intro gr hgr
+          simp [hall gr hgr]
+        rw [this, flatMap_nil_fun]
+      rw [hrows, List.nil_append]
+      have hrhs : (ms.flatMap fun a =>
+            let xs := r.filter (on a)
+            if xs.isEmpty then [pad a] else xs.map (pair a)) = ms.flatMap fun a => [pad a] := by
+        apply flatMap_congr_mem
+        intro a ha
+        have hka := catalog_member_key kl l k ms hgl a ha
+        have : r.filter (on a) = [] := by
           apply List.filter_eq_nil_iff.mpr
           intro b hb
-          rw [hon, hka, catalog_member_key kr r k' ns hgr b hb]; exact hc
-      by_cases hc : onKey k k' = true
-      · simp only [hc, if_true]
-        apply flatMap_congr_mem
-        intro a ha; rw [hall a ha]; simp [hc]
-      · have hc' : onKey k k' = false := by simpa using hc
-        simp only [hc', Bool.false_eq_true, if_false]
-        symm
-        have : (ms.flatMap fun a => (ns.filter (on a)).map (pair a)) = ms.flatMap fun _ => ([] : List γ) := by
-          apply flatMap_congr_mem
-          intro a ha; rw [hall a ha]; simp [hc']
-        rw [this, flatMap_nil_fun]
-    rw [h1]
-    -- (2) swap the two iterations
-    refine (flatMap_comm_perm (fun gr a => (gr.2.filter (on a)).map (pair a)) (catalogue kr r) ms).trans ?_
-    -- (3) per left row: all right groups together are the right table
-    apply flatMap_perm_pointwise
-    intro a _
-    have : ((catalogue kr r).flatMap fun gr => (gr.2.filter (on a)).map (pair a)) =
-        (((catalogue kr r).flatMap (·.2)).filter (on a)).map (pair a) := by
-      rw [List.filter_flatMap, List.map_flatMap]
-    rw [this]
-    exact ((catalog_flatten_perm kr r).filter (on a)).map (pair a)
-  -- (4) all left groups together are the left table
-  refine (flatMap_perm_pointwise (catalogue kl l) hgl).trans ?_
+          obtain ⟨g, hg, hgk, _⟩ := catalog_cover kr r b hb
+          rw [hon, hka, ← hgk, hall g hg]
+          simp
+        simp [this]
+      rw [hrhs]
+      rw [flatMap_single_map]
+  refine (flatMap_perm_pointwise (catalogue kl l) hgroup).trans ?_
   rw [← List.flatMap_assoc]
   exact List.Perm.flatMap_right _ (catalog_flatten_perm kl l)
 
